@@ -11,6 +11,32 @@ const IDX_AF: i32 = 3;
 const IDX_DB: i32 = 4;
 const IDX_GT: i32 = 5;
 const IDX_GQ: i32 = 6;
+/// number of padding INFO definitions in a "wide" dictionary
+const WIDE_PAD: i32 = 135;
+
+/// About a quarter of the call sets (decided by the data itself) get a *wide* dictionary: 135 unused
+/// INFO definitions in front of the FORMAT keys, as annotated call sets have, so that GT and GQ
+/// sit at dictionary indices above 127 and their keys are written as int16 (htslib picks the
+/// smallest integer type that fits).
+pub fn wide_dictionary(cs: &CallSet) -> bool {
+    cs.samples.iter().map(|s| s.len()).sum::<usize>() % 4 == 0
+}
+
+pub fn gt_idx(cs: &CallSet) -> i32 {
+    if wide_dictionary(cs) {
+        IDX_GT + 2 + WIDE_PAD
+    } else {
+        IDX_GT
+    }
+}
+
+fn gq_idx(cs: &CallSet) -> i32 {
+    if wide_dictionary(cs) {
+        IDX_GQ + 2 + WIDE_PAD
+    } else {
+        IDX_GQ
+    }
+}
 
 /// Dictionary index of the i-th contig line. For about half of the call sets (decided by the data
 /// itself) the indices run against the header line order, as htslib allows with explicit IDX.
@@ -35,9 +61,14 @@ pub fn header_text(cs: &CallSet) -> String {
     h.push_str(&format!("##INFO=<ID=AF,Number=A,Type=Float,Description=\"Allele frequency\",IDX={IDX_AF}>\n"));
     h.push_str(&format!("##INFO=<ID=DB,Number=0,Type=Flag,Description=\"dbSNP membership\",IDX={IDX_DB}>\n"));
     h.push_str("##ALT=<ID=DEL,Description=\"Deletion\">\n");
-    h.push_str(&format!("##FORMAT=<ID=GT,Number=1,Type=String,Description=\"Genotype\",IDX={IDX_GT}>\n"));
+    if wide_dictionary(cs) {
+        for k in 0..WIDE_PAD {
+            h.push_str(&format!("##INFO=<ID=XI{k:03},Number=1,Type=Integer,Description=\"unused annotation {k}\",IDX={}>\n", IDX_GQ + 1 + k));
+        }
+    }
+    h.push_str(&format!("##FORMAT=<ID=GT,Number=1,Type=String,Description=\"Genotype\",IDX={}>\n", gt_idx(cs)));
     h.push_str(&format!("##FORMAT=<ID=DP,Number=1,Type=Integer,Description=\"Read depth\",IDX={IDX_DP}>\n"));
-    h.push_str(&format!("##FORMAT=<ID=GQ,Number=1,Type=Integer,Description=\"Genotype quality\",IDX={IDX_GQ}>\n"));
+    h.push_str(&format!("##FORMAT=<ID=GQ,Number=1,Type=Integer,Description=\"Genotype quality\",IDX={}>\n", gq_idx(cs)));
     h.push_str("#CHROM\tPOS\tID\tREF\tALT\tQUAL\tFILTER\tINFO\tFORMAT");
     for s in &cs.samples {
         h.push('\t');
@@ -114,7 +145,7 @@ pub fn encode_gt(gt: &Gt, width: usize, out: &mut Vec<u8>) {
 }
 
 pub fn record_bytes(cs: &CallSet, r: &Record) -> Vec<u8> {
-    record_bytes_with_gt_idx(cs, r, IDX_GT)
+    record_bytes_with_gt_idx(cs, r, gt_idx(cs))
 }
 
 /// `gt_idx`: dictionary index of the GT key (the repository's fixtures use 1).
@@ -166,7 +197,7 @@ pub fn record_bytes_with_gt_idx(cs: &CallSet, r: &Record, gt_idx: i32) -> Vec<u8
     }
     if r.fmt_gq {
         n_fmt += 1;
-        typed_int(IDX_GQ, &mut indiv);
+        typed_int(gq_idx(cs), &mut indiv);
         typed_descriptor(1, 1, &mut indiv);
         for i in 0..n_sample {
             indiv.push((20 + (i as u64 * 7 + r.pos) % 70) as u8);
